@@ -220,8 +220,10 @@ var closeOwners = map[string]string{
 }
 
 var pollerCloseCallers = map[string]string{
-	"gnet.(*engine).closeEventLoops": "engine teardown after all loops were joined",
-	"netpoll.OpenPoller":             "constructor failure",
+	"gnet.(*engine).closeEventLoops":  "engine teardown after all loops were joined",
+	"netpoll.OpenPoller":              "constructor failure",
+	"gnet.(*engine).runEventLoops":    "start-up failure of an event loop that is not registered (and hence never started) yet",
+	"gnet.(*engine).activateReactors": "start-up failure of the main reactor before it is attached to the engine",
 }
 
 func runC07_2(c *core.Ctx) {
